@@ -187,12 +187,63 @@ class PointSym:
         return Table((self.dim + 1,), {(i,): (LP.sym(f"{self.name}{i}") * w if i < self.dim else w) for i in range(self.dim + 1)})
 
 
+class QuadricSym:
+    """a quadric object whose matrix is a table (a parameter, or the result of Conic(...) / cls(...))"""
+
+    def __init__(self, matrix: "Table"):
+        self.matrix = matrix
+
+
+class RootsOf:
+    """the value of roots([c3, c2, c1, c0]): indexing it gives the symbol `s` with c3 s^3 + c2 s^2 + c1 s + c0 = 0"""
+
+    def __init__(self, coeffs: list):
+        self.coeffs = coeffs
+
+
+def _det_table(t: "Table") -> LP:
+    n = t.shape[0]
+    if len(t.shape) != 2 or t.shape[1] != n or n > 4:
+        raise Unknown("determinant of this shape")
+    out = LP()
+    for perm in itertools.permutations(range(n)):
+        sign = -1 if sum(1 for i in range(n) for j in range(i + 1, n) if perm[i] > perm[j]) % 2 else 1
+        term = LP.const(sign)
+        for i in range(n):
+            term = term * t.data[(i, perm[i])]
+            if term.is_zero():
+                break
+        out = out + term
+    return out
+
+
+def _minor(t: "Table", i: int, j: int) -> "Table":
+    n = t.shape[0]
+    rows, cols = [r for r in range(n) if r != i], [c for c in range(n) if c != j]
+    return Table((n - 1, n - 1), {(a, b): t.data[(r, c)] for a, r in enumerate(rows) for b, c in enumerate(cols)})
+
+
+def _adjugate_table(t: "Table") -> "Table":
+    n = t.shape[0]
+    if len(t.shape) != 2 or t.shape[1] != n or n > 4:
+        raise Unknown("adjugate of this shape")
+    return Table.full((n, n), lambda idx: _det_table(_minor(t, idx[1], idx[0])) * LP.const(-1 if (idx[0] + idx[1]) % 2 else 1))
+
+
+def _stack_rows(items: list) -> "Table":
+    if items and all(isinstance(x, Table) and len(x.shape) == 1 and x.shape == items[0].shape for x in items):
+        return Table((len(items), items[0].shape[0]), {(i, j): x.data[(j,)] for i, x in enumerate(items) for j in range(x.shape[0])})
+    raise Unknown("rows of different kinds")
+
+
 class Interp:
     def __init__(self, prog: Program, cls: ClassInfo, assume: dict[str, bool]):
         self.prog, self.cls = prog, cls
         self.assume = assume  # textual test -> outcome, for tests the domain cannot decide (np.isinf(h) ...)
         self.undecided_tests: list[str] = []
         self.infinite: set[str] = set()  # symbols assumed infinite on this path
+        self.roots: RootsOf | None = None
+        self.quadric_ctors: set[str] = set()
 
     # ---- expressions
     def ev(self, e: ast.expr, env: dict):
@@ -258,6 +309,8 @@ class Interp:
                     return (base.dim + 1,)
                 if e.attr == "dim":
                     return base.dim
+            if isinstance(base, QuadricSym) and e.attr == "array":
+                return base.matrix
             if isinstance(base, Table):
                 if e.attr == "T":
                     if len(base.shape) == 2:
@@ -273,6 +326,9 @@ class Interp:
             idx = self.index(e.slice, env)
             if isinstance(base, Table):
                 return base.get(idx)
+            if isinstance(base, RootsOf) and isinstance(idx, int):
+                self.roots = base
+                return LP.sym("s")
             if isinstance(base, (tuple, list)) and isinstance(idx, int):
                 return base[idx] if -len(base) <= idx < len(base) else Opaque("index out of range")
             return Opaque("subscript")
@@ -367,6 +423,29 @@ class Interp:
                 return Opaque("isinf")
             if name in ("float", "int") and len(e.args) == 1:
                 return self.ev(e.args[0], env)
+        if name in ("det", "adjugate") and len(e.args) == 1:
+            v = self.ev(e.args[0], env)
+            t = _stack_rows([self.num(x) for x in v]) if isinstance(v, list) else self.num(v)
+            if isinstance(t, Table):
+                return _det_table(t) if name == "det" else _adjugate_table(t)
+        if name == "cross" and len(e.args) == 2:
+            a, b = self.num(self.ev(e.args[0], env)), self.num(self.ev(e.args[1], env))
+            if isinstance(a, Table) and isinstance(b, Table) and a.shape == b.shape == (3,):
+                def c(i, j):
+                    return a.data[(i,)] * b.data[(j,)] - a.data[(j,)] * b.data[(i,)]
+                return Table((3,), {(0,): c(1, 2), (1,): c(2, 0), (2,): c(0, 1)})
+        if name == "outer" and len(e.args) == 2:
+            a, b = self.num(self.ev(e.args[0], env)), self.num(self.ev(e.args[1], env))
+            if isinstance(a, Table) and isinstance(b, Table) and len(a.shape) == len(b.shape) == 1:
+                return Table((a.shape[0], b.shape[0]), {(i, j): a.data[(i,)] * b.data[(j,)] for i in range(a.shape[0]) for j in range(b.shape[0])})
+        if name == "roots" and len(e.args) == 1:
+            v = self.ev(e.args[0], env)
+            if isinstance(v, list) and 2 <= len(v) <= 4:
+                return RootsOf([self.lp(x) for x in v])
+        if (name in ("Conic", "Quadric", "cls", "QuadricTensor", "type") or name in self.quadric_ctors) and e.args:
+            v = self.ev(e.args[0], env)
+            if isinstance(v, Table):
+                return QuadricSym(v)
         if isinstance(f, ast.Attribute) and name in ("dot",) and len(e.args) == 1:
             return _dot(self.num(self.ev(f.value, env)), self.num(self.ev(e.args[0], env)))
         if isinstance(f, ast.Attribute) and name == "copy" and not e.args:
@@ -423,6 +502,12 @@ class Interp:
             return
         if isinstance(st, ast.Raise):
             raise _Raise()
+        if isinstance(st, ast.Return):
+            try:
+                v = self.ev(st.value, env) if st.value is not None else Opaque("returns None")
+            except (Unknown, NotPolynomial) as ex:
+                v = Opaque(str(ex))
+            raise _Done(v.matrix if isinstance(v, QuadricSym) else v)
         if isinstance(st, ast.If):
             # `if <validation>: raise`: the constructor is analysed for parameters that pass the validation
             if len(st.body) == 1 and isinstance(st.body[0], ast.Raise) and not st.orelse:
@@ -449,6 +534,8 @@ class Interp:
                 env[t.id] = v
                 return
             if isinstance(t, ast.Tuple) and all(isinstance(x, ast.Name) for x in t.elts):
+                if isinstance(v, Table) and len(v.shape) >= 1 and v.shape[0] == len(t.elts):
+                    v = [v.get(i) for i in range(v.shape[0])]
                 vals = v if isinstance(v, (list, tuple)) and len(v) == len(t.elts) else [Opaque("unpacking")] * len(t.elts)
                 for x, y in zip(t.elts, vals):
                     env[x.id] = y
@@ -665,4 +752,165 @@ def rule_quadrics(run: Run, prog: Program) -> int:
             run.add("E19", f"{cls.name}.__init__", label, PROVEN, f"the {want.shape[0]}x{want.shape[1]} matrix is proportional to the matrix of the locus", loc)
         else:
             run.add("E19", f"{cls.name}.__init__", label, VIOLATION, f"the matrix is not a multiple of the matrix of the locus: {why}", loc)
+    return n
+
+
+# ---------------------------------------------------------------------------------------------- conics through points; degenerate quadrics; the pencil
+def run_function(prog: Program, fn: FunctionInfo, cls: ClassInfo, env: dict, body: list | None = None):
+    """the value a classmethod / method returns for symbolic arguments (a Table, an LP, Opaque ...) and the interpreter"""
+    it = Interp(prog, cls, {})
+    it.quadric_ctors = {c.name for c in prog.classes.values() if prog.find_cls("QuadricTensor") is not None and prog.is_subclass(c, prog.find_cls("QuadricTensor"))}
+    try:
+        it.block(body if body is not None else fn.node.body, env)
+    except _Done as d:
+        return d.matrix, it
+    except _Raise:
+        return Opaque("the path raises"), it
+    return Opaque("no value is returned"), it
+
+
+def _quadratic_form(m: Table, p: Table) -> LP:
+    out = LP()
+    n = p.shape[0]
+    for i in range(n):
+        for j in range(n):
+            out = out + p.data[(i,)] * m.data[(i, j)] * p.data[(j,)]
+    return out
+
+
+def rule_conics(run: Run, prog: Program) -> int:
+    run.rule("E19.pts", "Conic.from_points and Conic.from_crossratio, read as tables of polynomials in the coordinates of their points, contain those points: "
+                        "p^T M p vanishes identically for each of the five (four) points")
+    conic = prog.find_cls("Conic")
+    n = 0
+    if conic is None:
+        return 0
+    for name, npts, lead in (("from_points", 5, 0), ("from_crossratio", 4, 1)):
+        fn = conic.methods.get(name)
+        if fn is None:
+            run.add("E19.pts", f"Conic.{name}", "contains its points", UNDECIDED, f"Conic.{name} not found", "")
+            continue
+        fn = prog.body_of(fn)
+        params = [a.arg for a in fn.node.args.args][1:]
+        if len(params) != npts + lead:
+            run.add("E19.pts", fn.short, "contains its points", UNDECIDED, "signature changed", fn.loc)
+            continue
+        env: dict = {}
+        if lead:
+            env[params[0]] = LP.sym("cr")
+        pts = []
+        for k, p in enumerate(params[lead:]):
+            env[p] = PointSym(f"p{k}_", 2)
+            pts.append(env[p])
+        n += 1
+        try:
+            m, _it = run_function(prog, fn, conic, env)
+            if not isinstance(m, Table) or m.shape != (3, 3):
+                run.add("E19.pts", fn.short, "contains its points", UNDECIDED, f"the matrix is not read as a 3x3 table of polynomials: {getattr(m, 'why', type(m).__name__)[:100]}", fn.loc)
+                continue
+            bad = []
+            for k, p in enumerate(pts):
+                # judged on the normalised representative: the statement is projective, and fewer symbols keep the polynomials small
+                q = _quadratic_form(m, p.normalized() if name == "from_points" else p.raw())
+                if not q.is_zero():
+                    bad.append((k, q))
+        except (Unknown, NotPolynomial, RecursionError) as ex:
+            run.add("E19.pts", fn.short, "contains its points", UNDECIDED, f"not read: {str(ex)[:100]}", fn.loc)
+            continue
+        sym = all((m.data[(i, j)] - m.data[(j, i)]).is_zero() for i in range(3) for j in range(3))
+        if bad:
+            k, q = bad[0]
+            run.add("E19.pts", fn.short, "contains its points", VIOLATION,
+                    f"argument {lead + k + 1} (`{params[lead + k]}`) does not lie on the conic: p^T M p is a polynomial with {len(q.t)} term(s), e.g. {LP(dict(list(q.t.items())[:2])).show()[:100]}, "
+                    f"not 0 ({len(bad)} of {npts} points fail)", fn.loc)
+        elif not sym:
+            run.add("E19.pts", fn.short, "contains its points", VIOLATION, "the matrix is not symmetric: tangent, polar and dual read M as the symmetric matrix of the form", fn.loc)
+        else:
+            run.add("E19.pts", fn.short, "contains its points", PROVEN, f"p^T M p = 0 identically for all {npts} points; M is symmetric", fn.loc)
+    return n
+
+
+def rule_degenerate(run: Run, prog: Program) -> int:
+    run.rule("E19.deg", "Conic.from_lines / QuadricTensor.from_planes build g h^T + h g^T (the quadric whose points are exactly the points of g and of h), and the "
+                        "cubic whose root Conic.intersect(conic) takes is det(s A + B) for the member s A + B of the pencil it then decomposes")
+    n = 0
+    for cname, mname, dim in (("Conic", "from_lines", 2), ("QuadricTensor", "from_planes", 3), ("QuadricTensor", "from_planes", 2)):
+        cls = prog.find_cls(cname)
+        fn = cls.methods.get(mname) if cls else None
+        if fn is None:
+            run.add("E19.deg", f"{cname}.{mname}", "pair of hyperplanes", UNDECIDED, f"{cname}.{mname} not found", "")
+            continue
+        fn = prog.body_of(fn)
+        params = [a.arg for a in fn.node.args.args][1:]
+        if len(params) != 2:
+            continue
+        n += 1
+        g = Table((dim + 1,), {(i,): LP.sym(f"g{i}") for i in range(dim + 1)})
+        h = Table((dim + 1,), {(i,): LP.sym(f"h{i}") for i in range(dim + 1)})
+        env = {params[0]: QuadricSym(g), params[1]: QuadricSym(h)}  # any object with an `.array`
+        label = f"pair of hyperplanes (dimension {dim})"
+        try:
+            m, _it = run_function(prog, fn, cls, env)
+            if not isinstance(m, Table) or m.shape != (dim + 1, dim + 1):
+                run.add("E19.deg", fn.short, label, UNDECIDED, f"the matrix is not read as a table: {getattr(m, 'why', type(m).__name__)[:100]}", fn.loc)
+                continue
+            want = Table.full((dim + 1, dim + 1), lambda idx: g.data[(idx[0],)] * h.data[(idx[1],)] + h.data[(idx[0],)] * g.data[(idx[1],)])
+            ok, why = proportional(m, want)
+        except (Unknown, NotPolynomial) as ex:
+            run.add("E19.deg", fn.short, label, UNDECIDED, f"not read: {str(ex)[:100]}", fn.loc)
+            continue
+        run.add("E19.deg", fn.short, label, PROVEN if ok else VIOLATION,
+                "M = g h^T + h g^T: x^T M x = 2 (g.x)(h.x)" if ok else f"the matrix is not a multiple of g h^T + h g^T: {why}", fn.loc)
+    # the pencil
+    conic = prog.find_cls("Conic")
+    fn = conic.methods.get("intersect") if conic else None
+    if fn is not None:
+        fn = prog.body_of(fn)
+        block = None
+        for node in ast.walk(fn.node):
+            for field_ in ("body", "orelse"):
+                stmts = getattr(node, field_, None)
+                if isinstance(stmts, list) and any(isinstance(s_, ast.Assign) and any(isinstance(c, ast.Call) and (getattr(c.func, "id", None) == "roots" or getattr(c.func, "attr", None) == "roots")
+                                                                                      for c in ast.walk(s_.value)) for s_ in stmts):
+                    block = stmts
+        params = [a.arg for a in fn.node.args.args]
+        if block is None or len(params) < 2:
+            run.add("E19.deg", fn.short, "pencil", UNDECIDED, "the cubic handed to roots() was not found", fn.loc)
+        else:
+            n += 1
+            a_ = Table.full((3, 3), lambda idx: LP.sym(f"A{min(idx)}{max(idx)}"))
+            b_ = Table.full((3, 3), lambda idx: LP.sym(f"B{min(idx)}{max(idx)}"))
+            env = {params[0]: QuadricSym(a_), params[1]: QuadricSym(b_)}
+            it = Interp(prog, conic, {})
+            it.quadric_ctors = {"Conic"}
+            member = None
+            try:
+                for st in block:
+                    it.stmt(st, env)
+                    if it.roots is not None and member is None:
+                        for v in env.values():
+                            if isinstance(v, QuadricSym) and v.matrix is not a_ and v.matrix is not b_:
+                                member = v.matrix
+                if it.roots is None or member is None:
+                    run.add("E19.deg", fn.short, "pencil", UNDECIDED, "the member of the pencil built from the root was not read", fn.loc)
+                else:
+                    s_ = LP.sym("s")
+                    poly = LP()
+                    deg = len(it.roots.coeffs) - 1
+                    for k, c in enumerate(it.roots.coeffs):
+                        poly = poly + c * s_.power(deg - k)
+                    resid = _det_table(member) - poly
+                    if resid.is_zero():
+                        run.add("E19.deg", fn.short, "pencil", PROVEN, "det(member of the pencil built from the root s) = the cubic handed to roots(), coefficient by coefficient: "
+                                                                       "the member is degenerate", fn.loc)
+                    else:
+                        by_power: dict = {}
+                        for mono, c in resid.t.items():
+                            e_ = dict(mono).get("s", 0)
+                            by_power[int(e_)] = by_power.get(int(e_), 0) + 1
+                        run.add("E19.deg", fn.short, "pencil", VIOLATION,
+                                f"det of the conic built from the root differs from the cubic handed to roots() in the coefficient(s) of s^{sorted(by_power)}: the "
+                                f"conic that is decomposed into two lines is not degenerate", fn.loc)
+            except (Unknown, NotPolynomial) as ex:
+                run.add("E19.deg", fn.short, "pencil", UNDECIDED, f"not read: {str(ex)[:100]}", fn.loc)
     return n
